@@ -94,7 +94,7 @@ def handle : List String → String
           let sc := afniScaling (fun (v : Nat × Bool) => v.2) ((0 : Nat), false) nvol
                       (fl.map (fun l => l.zipIdx.map (fun (z, t) => (t + 1, z))))
           let p : Params Unit := ⟨shape, isz, 0, .F, (), ()⟩
-          match getUnscaled (thresholdHeuristic thr) p idx, afniScaleSlots shape idx with
+          match getUnscaled (thresholdHeuristic thr) p idx, afniScaleSlotsB shape idx with
           | .ok (sh, d), .ok (_, sl) =>
               let used : List Nat := match sc with
                 | none => []
